@@ -463,13 +463,20 @@ def _geom(f, n, K, lam, seed, quick):
         for m in ("klein", "poincare", "halfspace", "hyperboloid"):
             c = p.coords(m)
             if m == "hyperboloid":
-                out[m] = ("proj", c)
+                # a model coordinate like the others: the SAME numbers for every representative (a negative factor must not
+                # move the coordinates to the other sheet), and they are the future-sheet unit vector of the point
+                out[m] = ("abs", c)
                 out["hyperboloid-unit"] = ("abs", np.abs(hyp.mink(c, c)))
+                out["hyperboloid-future-sheet"] = ("abs", np.asarray(c, dtype=float) - hyp.unit_hyperboloid(_proj(K[0], 1.0)))
             else:
                 out[m] = ("abs", c)
     elif f == "distance":
         out["d"] = ("abs", H.Point(X[0]).distance(H.Point(X[1])))
         out["d-composite"] = ("abs", H.Point(np.stack([X[0], X[1]])).distance(H.Point(np.stack([X[1], X[0]]))))
+        # model coordinates of a composite whose units carry independent factors (unit by unit)
+        comp = H.Point(np.stack([X[0], X[1]]))
+        for m in ("hyperboloid", "poincare"):
+            out["composite-coords-%s" % m] = ("abs", comp.coords(m))
     elif f == "segment":
         s = H.Segment(H.Point(X[0]), H.Point(X[1]))
         out["endpoints-klein"] = ("abs", s.endpoint_coords("klein") if hasattr(s, "endpoint_coords") else s.coords("klein"))
@@ -811,6 +818,14 @@ def case_coordfn(case):
                 if not (e1 <= 1e-8 and e2 <= 1e-8):
                     v.append({"key": "coordfn/value/%s/%s/%s" % (f, layout, "unscaled" if pat is None else "rescaled"),
                               "msg": "%s: not the points on the unit hyperboloid (projective error %.3g, |<x,x>| - 1 = %.3g)\n%r" % (where, e1, e2, r)})
+                else:
+                    # the hyperboloid model is ONE sheet: the coordinates are the future-pointing unit vectors of the
+                    # unscaled points, whatever the sign of the factor each point was given with
+                    e3 = float(np.max(np.abs(r.astype(float) - hyp.unit_hyperboloid(X))))
+                    if not e3 <= TOL * (1.0 + float(np.max(np.abs(X)))):
+                        v.append({"key": "coordfn/sheet/%s/%s/%s" % (f, layout, "unscaled" if pat is None else "rescaled"),
+                                  "msg": "%s: differs by %.3g from the future-sheet unit vectors of the points (x0 > 0): time coordinates %r" % (
+                                      where, e3, r[..., 0].tolist())})
             res[cols] = (r, chart)
         if len(res) == 2 and not v:
             (a, ca), (b_, cb) = res[False], res[True]
